@@ -112,28 +112,36 @@ func fill(rng *Rand, class string, w, h, comps, P, near int) []int {
 			}
 		}
 	case "halfjump":
-		// quiet dither (values base..base+2: contexts stay at k = 0 with a drifting bias) with isolated
-		// samples exactly half the range above or below their left neighbour: the error +-2^(P-1) sits on
-		// the modulo boundary, where an encoder/decoder pair must agree on the representative
+		// every row is the same unit-slope ramp, so the MED predictor is exact (context (1,1,0), regular mode,
+		// Golomb parameter 0); sparse dips of one level drive the bias negative; isolated samples sit exactly
+		// (or nearly) half the range above/below the sample above them: the error +-2^(P-1) is on the modulo
+		// boundary, where encoder and decoder must agree on the representative, also after bias correction
 		half := (mv + 1) / 2
 		var base [3]int
 		for c := range base {
-			base[c] = rng.Intn(mv/2 + 1)
+			base[c] = rng.Intn(mv/4 + 1)
 		}
 		for y := 0; y < h; y++ {
 			for x := 0; x < w; x++ {
 				for c := 0; c < comps; c++ {
-					v := base[c] + rng.Intn(3)
+					v := base[c] + x%(mv/4+1)
+					switch {
+					case rng.Intn(7) == 0 && v > 0:
+						v--
+					case y > 0 && rng.Intn(19) == 0:
+						above := px[at(x, y-1, c)]
+						j := half
+						if rng.Intn(3) == 0 {
+							j += rng.Intn(5) - 2
+						}
+						if above+j <= mv && (rng.Bool() || above-j < 0) {
+							v = above + j
+						} else if above-j >= 0 {
+							v = above - j
+						}
+					}
 					if v > mv {
 						v = mv
-					}
-					if x > 0 && rng.Intn(23) == 0 {
-						left := px[at(x-1, y, c)]
-						if left+half <= mv {
-							v = left + half
-						} else if left-half >= 0 {
-							v = left - half
-						}
 					}
 					px[at(x, y, c)] = v
 				}
